@@ -38,6 +38,7 @@ import (
 	"time"
 
 	"go.nanomsg.org/mangos/v3"
+	"go.nanomsg.org/mangos/v3/transport/ws"
 	"go.nanomsg.org/mangos/v3/verifharness/fixture"
 	"go.nanomsg.org/mangos/v3/verifharness/stats"
 	"go.nanomsg.org/mangos/v3/verifharness/wire"
@@ -182,6 +183,10 @@ func splitURL(u string) (host, path string) {
 	return rest, ""
 }
 
+// rigOriginOpt, when set by a case ("before-true", "before-false", "after-true", "after-false"),
+// makes the next ws/wss listener rig set WEBSOCKET-CHECKORIGIN accordingly; it is consumed by newRig.
+var rigOriginOpt string
+
 func newRig(t tb, ctor, tr string, dial bool) *rig {
 	r := &rig{t: t, tr: tr, dial: dial, ctor: ctor, info: infoOf(ctor)}
 	r.sock = fixture.New(ctor)
@@ -195,6 +200,34 @@ func newRig(t tb, ctor, tr string, dial bool) *rig {
 		if err := r.sock.SetOption(mangos.OptionSubscribe, []byte{}); err != nil {
 			t.Fatalf("harness: subscribe: %v", err)
 		}
+	}
+	if !dial && (tr == "ws" || tr == "wss") && rigOriginOpt != "" {
+		// the listener's other WebSocket option is set as well (before or after Listen): it
+		// must not change the subprotocol negotiation
+		opt := rigOriginOpt
+		rigOriginOpt = ""
+		a := fixture.Addr(tr)
+		l, err := r.sock.NewListener(a, fixture.ListenOpts(tr))
+		if err != nil {
+			t.Fatalf("harness: NewListener(%s): %v", a, err)
+		}
+		val := strings.HasSuffix(opt, "true")
+		if strings.HasPrefix(opt, "before") {
+			if err := l.SetOption(ws.OptionWebSocketCheckOrigin, val); err != nil {
+				t.Fatalf("harness: SetOption(CHECKORIGIN): %v", err)
+			}
+		}
+		if err := l.Listen(); err != nil {
+			t.Fatalf("harness: mangos listen on %s: %v", tr, err)
+		}
+		if strings.HasPrefix(opt, "after") {
+			if err := l.SetOption(ws.OptionWebSocketCheckOrigin, val); err != nil {
+				t.Fatalf("harness: SetOption(CHECKORIGIN): %v", err)
+			}
+		}
+		r.url = a
+		r.host, r.path = splitURL(a)
+		return r
 	}
 	if !dial {
 		a, _, err := fixture.Listen(r.sock, tr)
@@ -1064,10 +1097,16 @@ func subprotoListenCase(t *rapid.T, tr string) {
 	for i := range offers {
 		offers[i] = genOffer(t, fmt.Sprintf("o%d.", i), info)
 	}
+	originOpt := rapid.SampledFrom([]string{"", "", "before-true", "before-false", "after-true", "after-false"}).Draw(t, "checkOriginOption")
+	rigOriginOpt = originOpt
 	r := newRig(t, ctor, tr, false)
 	defer r.close()
 	doc := r.doc("TestC15WSSubprotocol")
 	doc["offers"] = offers
+	doc["checkorigin_option"] = originOpt
+	if originOpt != "" {
+		stats.Class("ws_listener_with_checkorigin_set")
+	}
 	who := fmt.Sprintf("%s %s listener", ctor, tr)
 
 	attached := 0
